@@ -22,7 +22,8 @@ Accepts == { <<>>,
 Methods  == {"GET", "HEAD", "POST", "DELETE"}
 Declared == { <<200>>, <<201, 200>>, <<204>>, <<204, 201>>, <<0>>, <<0, 200>>, <<404, 0>> }
 Outcomes == { [k |-> "value", code |-> 0, scripted |-> FALSE], [k |-> "nil", code |-> 0, scripted |-> FALSE],
-              [k |-> "responder", code |-> 0, scripted |-> FALSE], [k |-> "error", code |-> 409, scripted |-> TRUE] }
+              [k |-> "responder", code |-> 0, scripted |-> FALSE], [k |-> "error", code |-> 409, scripted |-> TRUE],
+              [k |-> "libresponder", code |-> 409, scripted |-> FALSE] }
 Registries == { <<"a/x", "t/p", "application/json">>, <<"a/x", "application/json">>, <<"t/p", "application/json">> }
 
 Init == /\ stage = "produces"
@@ -62,6 +63,7 @@ PropertyHolds ==
   (AtEnd /\ Reaches) =>
      CASE out.k \in {"value", "nil"} -> AllowedValue(cfg, rq, out, Obs)
        [] out.k = "responder"        -> AllowedResponder(cfg, rq, Obs)
+       [] out.k = "libresponder"     -> AllowedLibResponder(cfg, rq, out, Obs)
        [] out.k = "error"            -> AllowedError(cfg, rq, out, Obs)
 \* the transcription of the double loop picks one of the declaratively best offers
 NegotiationSound ==
